@@ -302,7 +302,7 @@ theorem isOk_false_iff (r : Res) : isOk r = false ↔ ∃ e, r = .error e := by
   | error e => simp
 
 /-- C11, second sentence, both directions: on every netlist built by ordinary calls (any order of wire creation,
-    instantiation, port registration, renaming, re-parenting, interfaces; also calls that raised), for every object `o`,
+    instantiation, port registration incl. InOut ports, renaming, re-parenting, interfaces; also calls that raised), for every object `o`,
     `checkIntegrity(o)` raises  ⇔  some in/out port of `o` or of a descendant is attached to a wire whose source is None. -/
 theorem checkIntegrity_iff (ops : List Op) (hord : ∀ op ∈ ops, op.ordinary = true) (o : Nat)
     (ho : o < (run {} ops).objs.length) :
@@ -355,16 +355,34 @@ theorem undriven_rejected (ops : List Op) (hord : ∀ op ∈ ops, op.ordinary = 
 theorem checkIntegrity_eq_any_port (fuel : Nat) (g : G) (o : Nat) :
     isOk (checkIntegrity fuel g o) = !anyBelow fuel g o (inBad g) (outBad g) := checkIntegrity_eq_any fuel g o
 
-/- FULL STATEMENT without the `ordinary` hypothesis is false of the current code: -/
+/- What `Op.ordinary` still excludes, and why (the statement is about ORDINARY wires): BidirWire creation and
+   `disconnectWireFromLogicObject`.  `addInOut` is included since commit 2aca8d4 (checkPort also looks in inOutPorts);
+   before it, an ordinary wire driven through an InOutPort of a primitive made checkIntegrity raise 'not port of parent' on a
+   fully driven hierarchy (finding C11-inout-source-checkport, fixed). -/
 def hInOut : List Op :=
   [.newLogic none "top" false, .wire 0 "a" false, .newLogic (some 0) "p" true, .addInOut 1 "io" 0,
    .newLogic (some 0) "q" true, .addIn 2 "a" 0]
 
-/-- NEGATIVE (finding C11-inout-source-checkport): wire `a` is driven (by the InOutPort of primitive `p`), every port
-    wire of the hierarchy is driven — and checkIntegrity raises 'not port of parent' -/
-theorem inout_source_rejected_counterexample :
-    specRaises (run {} hInOut) 0 = false ∧ srcOf (run {} hInOut) 0 = some 0 ∧
-    checkIntegrity (run {} hInOut).objs.length (run {} hInOut) 0 = .error (.notPort 0) := by
+/-- the former witness of C11-inout-source-checkport: wire `a` is driven by the InOutPort of primitive `p`, every port wire is
+    driven, the history is ordinary — and checkIntegrity now accepts it -/
+theorem inout_source_accepted :
+    (∀ op ∈ hInOut, op.ordinary = true) ∧ specRaises (run {} hInOut) 0 = false ∧ srcOf (run {} hInOut) 0 = some 0 ∧
+    checkIntegrity (run {} hInOut).objs.length (run {} hInOut) 0 = .ok () := by
+  decide
+
+/-- the remaining exclusions are necessary: an in port on a BidirWire makes checkIntegrity raise AttributeError
+    (`BidirWire.getSource` reads a missing attribute) although the BidirWire has a registered driver … -/
+theorem bidir_port_raises_attr :
+    let g := run {} [.newLogic none "top" false, .wire 0 "b" true, .newLogic (some 0) "p" true, .addInOut 1 "io" 0,
+                     .newLogic (some 0) "q" true, .addIn 2 "a" 0]
+    (g.wires[0]?).map (·.sources) = some [0] ∧ checkIntegrity g.objs.length g 0 = .error .attr := by
+  decide
+
+/-- … and so does a port whose wire was removed by `disconnectWireFromLogicObject` (`None.getSinks()`) -/
+theorem disconnected_port_raises_attr :
+    let g := run {} [.newLogic none "top" false, .wire 0 "a" false, .newLogic (some 0) "p" true, .addOut 1 "r" 0,
+                     .disconnect 0 1]
+    specRaises g 0 = false ∧ checkIntegrity g.objs.length g 0 = .error .attr := by
   decide
 
 /-! non-vacuity of section 3/4 on a hierarchical netlist: top{ c{ g1: a,b -> r }, k1 -> a } with b undriven, then driven -/
